@@ -125,6 +125,14 @@ def tryLoaders (name : Bytes) : List (List (Bytes × Bytes)) → Nat → List (N
     | some c => (some c, log ++ [(i, name)])
     | none => tryLoaders name rest (i + 1) (log ++ [(i, name)])
 
+/-- an optional bare word among a tag's arguments (`reversed`, `sorted`, `if_exists`, `random`, `fake`) -/
+def PS.optIdent (a : PS) (v : Bytes) : Bool × PS :=
+  match a.matchIdentVal v with | some a' => (true, a') | none => (false, a)
+
+/-- an optional keyword among a tag's arguments (`export`) -/
+def PS.optKw (a : PS) (v : Bytes) : Bool × PS :=
+  match a.matchKw v with | some a' => (true, a') | none => (false, a)
+
 mutual
 
 /-- `newTemplate` + `FromFile`'s loading: compile `src` under `name`.  Returns
@@ -247,8 +255,7 @@ def wrapUntil (T : LexTables) (cfg : SetCfg) : Nat → List Bytes → List Node 
 def tagParser (T : LexTables) (cfg : SetCfg) : Nat → Tok → Tok → PS → DS → PM (Node × Option Tok × DS)
   | 0, _, _, _, _ => .error { kind := .outOfFuel }
   | fuel+1, start, close, args, ds =>
-    let name := start.val
-    if name == b!"autoescape" then do
+    if start.val == b!"autoescape" then do
       let (body, _, _, last, ds) ← wrapUntil T cfg fuel [b!"endautoescape"] [] (some close) ds
       match args.matchType .ident with
       | none => .error (args.err "A mode is required for autoescape-tag.")
@@ -256,7 +263,7 @@ def tagParser (T : LexTables) (cfg : SetCfg) : Nat → Tok → Tok → PS → DS
         if m.val != b!"on" && m.val != b!"off" then .error (args.err "Only 'on' or 'off' is valid as an autoescape-mode.")
         else if args.remaining > 0 then .error (args.err "Malformed autoescape-tag arguments.")
         else pure (.tagAutoescape (m.val == b!"on") body, last, ds)
-    else if name == b!"block" then
+    else if start.val == b!"block" then
       if args.count = 0 then .error (args.err "Tag 'block' requires an identifier.")
       else match args.matchType .ident with
       | none => .error (args.err "First argument for tag 'block' must be an identifier.")
@@ -277,20 +284,20 @@ def tagParser (T : LexTables) (cfg : SetCfg) : Nat → Tok → Tok → PS → DS
           if (ds.ts.blocks.lookup nameTok.val).isSome then .error (args'.err "Block already defined")
           else pure (.tagBlock nameTok.val, last,
                      { ds with ts := { ds.ts with blocks := ds.ts.blocks ++ [(nameTok.val, body)] } })
-    else if name == b!"comment" then
+    else if start.val == b!"comment" then
       match skipUntil [b!"endcomment"] ds.doc.ts with
       | none => .error (ds.doc.err "Unexpected EOF, expected tag endcomment." ds.doc.all.getLast?)
       | some (closeTok, rest) =>
         if args.count != 0 then .error (args.err "Tag 'comment' does not take any argument.")
         else pure (.tagComment, some closeTok, { ds with doc := { ds.doc with ts := rest } })
-    else if name == b!"cycle" then do
+    else if start.val == b!"cycle" then do
       let (es, asName, silent, args) ← cycleArgs cfg fuel [] args
       if args.remaining > 0 then .error (args.err "Malformed cycle-tag.")
       else if es.length == 0 then .error (args.err "'cycle' tag requires at least one argument.")
       else
         let id := ds.cs.nextId
         pure (.tagCycle id es asName silent, some close, { ds with cs := { ds.cs with nextId := id + 1 } })
-    else if name == b!"extends" then
+    else if start.val == b!"extends" then
       if ds.ts.level > 1 then .error (args.err "The 'extends' tag can only defined on root level." (some start))
       else if ds.ts.parent.isSome then .error (args.err "This template has already one parent." (some start))
       else match args.matchType .str with
@@ -300,15 +307,15 @@ def tagParser (T : LexTables) (cfg : SetCfg) : Nat → Tok → Tok → PS → DS
         let (pi, cs) ← fromFile T cfg fuel ds.cs fname
         if args.remaining > 0 then .error (args.err "Tag 'extends' does only take 1 argument.")
         else pure (.tagExtends, some close, { ds with cs := cs, ts := { ds.ts with parent := some pi } })
-    else if name == b!"filter" then do
+    else if start.val == b!"filter" then do
       let (body, _, _, last, ds) ← wrapUntil T cfg fuel [b!"endfilter"] [] (some close) ds
       let (chain, args) ← filterTagArgs cfg fuel [] args
       if args.remaining > 0 then .error (args.err "Malformed filter-tag arguments.")
       else pure (.tagFilter chain body start.pos, last, ds)
-    else if name == b!"firstof" then do
+    else if start.val == b!"firstof" then do
       let (es, _) ← exprList cfg fuel [] args
       pure (.tagFirstof es, some close, ds)
-    else if name == b!"for" then
+    else if start.val == b!"for" then
       match args.matchType .ident with
       | none => .error (args.err "Expected an key identifier as first argument for 'for'-tag")
       | some (keyTok, args) => do
@@ -321,8 +328,8 @@ def tagParser (T : LexTables) (cfg : SetCfg) : Nat → Tok → Tok → PS → DS
         | none => .error (args.err "Expected keyword 'in'.")
         | some args => do
           let (obj, args) ← parseExpression cfg fuel args
-          let (rev, args) := match args.matchIdentVal b!"reversed" with | some a => (true, a) | none => (false, args)
-          let (srt, args) := match args.matchIdentVal b!"sorted" with | some a => (true, a) | none => (false, args)
+          let (rev, args) := args.optIdent b!"reversed"
+          let (srt, args) := args.optIdent b!"sorted"
           if args.remaining > 0 then .error (args.err "Malformed for-loop arguments.")
           else do
             let (body, endtag, endargs, last, ds) ← wrapUntil T cfg fuel [b!"empty", b!"endfor"] [] (some close) ds
@@ -332,11 +339,11 @@ def tagParser (T : LexTables) (cfg : SetCfg) : Nat → Tok → Tok → PS → DS
               if endargs.count > 0 then .error (endargs.err "Arguments not allowed here.")
               else pure (.tagFor keyTok.val valName obj rev srt body (some eb), last, ds)
             else pure (.tagFor keyTok.val valName obj rev srt body none, last, ds)
-    else if name == b!"if" then do
+    else if start.val == b!"if" then do
       let (c, args) ← parseExpression cfg fuel args
       if args.remaining > 0 then .error (args.err "If-condition is malformed.")
       else ifBranches T cfg fuel [c] [] (some close) ds
-    else if name == b!"ifchanged" then do
+    else if start.val == b!"ifchanged" then do
       let (es, args) ← exprList cfg fuel [] args
       if args.remaining > 0 then .error (args.err "Ifchanged-arguments are malformed.")
       else do
@@ -350,8 +357,8 @@ def tagParser (T : LexTables) (cfg : SetCfg) : Nat → Tok → Tok → PS → DS
             if endargs.count > 0 then .error (endargs.err "Arguments not allowed here.")
             else pure (.tagIfchanged id es tb (some eb), last, ds)
           else pure (.tagIfchanged id es tb none, last, ds)
-    else if name == b!"ifequal" || name == b!"ifnotequal" then do
-      let endName := if name == b!"ifequal" then b!"endifequal" else b!"endifnotequal"
+    else if start.val == b!"ifequal" || start.val == b!"ifnotequal" then do
+      let endName := if start.val == b!"ifequal" then b!"endifequal" else b!"endifnotequal"
       let (a, args) ← parseExpression cfg fuel args
       let (c, args) ← parseExpression cfg fuel args
       if args.remaining > 0 then .error (args.err "ifequal only takes 2 arguments.")
@@ -360,13 +367,13 @@ def tagParser (T : LexTables) (cfg : SetCfg) : Nat → Tok → Tok → PS → DS
         if endargs.count > 0 then .error (endargs.err "Arguments not allowed here.")
         else
           let mk := fun (e : Option (List Node)) =>
-            if name == b!"ifequal" then Node.tagIfEqual a c tb e else Node.tagIfNotEqual a c tb e
+            if start.val == b!"ifequal" then Node.tagIfEqual a c tb e else Node.tagIfNotEqual a c tb e
           if endtag == b!"else" then do
             let (eb, _, endargs, last, ds) ← wrapUntil T cfg fuel [endName] [] last ds
             if endargs.count > 0 then .error (endargs.err "Arguments not allowed here.")
             else pure (mk (some eb), last, ds)
           else pure (mk none, last, ds)
-    else if name == b!"import" then
+    else if start.val == b!"import" then
       match args.matchType .str with
       | none => .error (args.err "Import-tag needs a filename as string.")
       | some (f, args) =>
@@ -377,10 +384,10 @@ def tagParser (T : LexTables) (cfg : SetCfg) : Nat → Tok → Tok → PS → DS
           let exported := (cs.tpls[ti]!).exported
           let binds ← importArgs fuel exported [] args
           pure (.tagImport binds, some close, { ds with cs := cs })
-    else if name == b!"include" then do
+    else if start.val == b!"include" then do
       let (src, args, ds) ← (match args.matchType .str with
         | some (f, args) =>
-          let (ifExists, args) := match args.matchIdentVal b!"if_exists" with | some a => (true, a) | none => (false, args)
+          let (ifExists, args) := args.optIdent b!"if_exists"
           let fname := resolveFilename ds.ts.isString ds.ts.name f.val
           match fromFile T cfg fuel ds.cs fname with
           | .ok (ti, cs) => pure (IncludeSrc.static ti, args, { ds with cs := cs })
@@ -392,7 +399,7 @@ def tagParser (T : LexTables) (cfg : SetCfg) : Nat → Tok → Tok → PS → DS
             else .error e
         | none => do
           let (e, args) ← parseExpression cfg fuel args
-          let (ifExists, args) := match args.matchIdentVal b!"if_exists" with | some a => (true, a) | none => (false, args)
+          let (ifExists, args) := args.optIdent b!"if_exists"
           pure (IncludeSrc.lazy e ifExists ds.self, args, ds) : PM (IncludeSrc × PS × DS))
       match src with
       | .empty =>
@@ -404,7 +411,7 @@ def tagParser (T : LexTables) (cfg : SetCfg) : Nat → Tok → Tok → PS → DS
           | none => pure ([], false, args) : PM (List (Bytes × Expr) × Bool × PS))
         if args.remaining > 0 then .error (args.err "Malformed 'include'-tag arguments.")
         else pure (.tagInclude src only pairs, some close, ds)
-    else if name == b!"lorem" then
+    else if start.val == b!"lorem" then
       let (count, args) : Int64 × PS := match args.matchType .num with
         | some (c, a) => ((Val.str c.val).toInt, a)
         | none => (1, args)
@@ -416,10 +423,10 @@ def tagParser (T : LexTables) (cfg : SetCfg) : Nat → Tok → Tok → PS → DS
         | none => pure (b!"b", args)) with
       | .error e => .error e
       | .ok (method, args) =>
-        let (random, args) := match args.matchIdentVal b!"random" with | some a => (true, a) | none => (false, args)
+        let (random, args) := args.optIdent b!"random"
         if args.remaining > 0 then .error (args.err "Malformed lorem-tag arguments.")
         else pure (.tagLorem count method random start.pos, some close, ds)
-    else if name == b!"macro" then
+    else if start.val == b!"macro" then
       match args.matchType .ident with
       | none => .error (args.err "Macro-tag needs at least an identifier as name.")
       | some (nameTok, args) =>
@@ -427,7 +434,7 @@ def tagParser (T : LexTables) (cfg : SetCfg) : Nat → Tok → Tok → PS → DS
         | none => .error (args.err "Expected '('.")
         | some args => do
           let (params, args) ← macroParams cfg fuel [] args
-          let (exported, args) := match args.matchKw b!"export" with | some a => (true, a) | none => (false, args)
+          let (exported, args) := args.optKw b!"export"
           if args.remaining > 0 then .error (args.err "Malformed macro-tag.")
           else do
             let (body, _, endargs, last, ds) ← wrapUntil T cfg fuel [b!"endmacro"] [] (some close) ds
@@ -441,14 +448,14 @@ def tagParser (T : LexTables) (cfg : SetCfg) : Nat → Tok → Tok → PS → DS
               let ds := { ds with cs := { ds.cs with macros := ds.cs.macros.push md },
                                   ts := if exported then { ds.ts with exported := ds.ts.exported ++ [(nameTok.val, idx)] } else ds.ts }
               pure (.tagMacro idx, last, ds)
-    else if name == b!"now" then
+    else if start.val == b!"now" then
       match args.matchType .str with
       | none => .error (args.err "Expected a format string.")
       | some (f, args) =>
-        let (fake, args) := match args.matchIdentVal b!"fake" with | some a => (true, a) | none => (false, args)
+        let (fake, args) := args.optIdent b!"fake"
         if args.remaining > 0 then .error (args.err "Malformed now-tag arguments.")
         else pure (.tagNow f.val fake, some close, ds)
-    else if name == b!"set" then
+    else if start.val == b!"set" then
       match args.matchType .ident with
       | none => .error (args.err "Expected an identifier.")
       | some (n, args) =>
@@ -458,11 +465,11 @@ def tagParser (T : LexTables) (cfg : SetCfg) : Nat → Tok → Tok → PS → DS
           let (e, args) ← parseExpression cfg fuel args
           if args.remaining > 0 then .error (args.err "Malformed 'set'-tag arguments.")
           else pure (.tagSet n.val e, some close, ds)
-    else if name == b!"spaceless" then do
+    else if start.val == b!"spaceless" then do
       let (body, _, _, last, ds) ← wrapUntil T cfg fuel [b!"endspaceless"] [] (some close) ds
       if args.remaining > 0 then .error (args.err "Malformed spaceless-tag arguments.")
       else pure (.tagSpaceless body, last, ds)
-    else if name == b!"ssi" then
+    else if start.val == b!"ssi" then
       match args.matchType .str with
       | none => .error (args.err "First argument must be a string.")
       | some (f, args) =>
@@ -483,7 +490,7 @@ def tagParser (T : LexTables) (cfg : SetCfg) : Nat → Tok → Tok → PS → DS
           | some content =>
             if args.remaining > 0 then .error (args.err "Malformed SSI-tag argument.")
             else pure (.tagSsi (some content) none, some close, ds)
-    else if name == b!"templatetag" then
+    else if start.val == b!"templatetag" then
       match args.matchType .ident with
       | none => .error (args.err "Identifier expected.")
       | some (a, args) =>
@@ -492,7 +499,7 @@ def tagParser (T : LexTables) (cfg : SetCfg) : Nat → Tok → Tok → PS → DS
         | some out =>
           if args.remaining > 0 then .error (args.err "Malformed templatetag-tag argument.")
           else pure (.tagTemplatetag out, some close, ds)
-    else if name == b!"widthratio" then do
+    else if start.val == b!"widthratio" then do
       let (c, args) ← parseExpression cfg fuel args
       let (m, args) ← parseExpression cfg fuel args
       let (w, args) ← parseExpression cfg fuel args
@@ -503,7 +510,7 @@ def tagParser (T : LexTables) (cfg : SetCfg) : Nat → Tok → Tok → PS → DS
         | none => pure ([], args) : PM (Bytes × PS))
       if args.remaining > 0 then .error (args.err "Malformed widthratio-tag arguments.")
       else pure (.tagWidthratio c m w asName, some close, ds)
-    else if name == b!"with" then
+    else if start.val == b!"with" then
       if args.count = 0 then .error (args.err "Tag 'with' requires at least one argument.")
       else do
         let (body, _, endargs, last, ds) ← wrapUntil T cfg fuel [b!"endwith"] [] (some close) ds
